@@ -76,7 +76,7 @@ class Config:
 
 
 def subject_source(sid, decl, cfg, derive_use="use ::enum_tools::EnumTools;", bounds=None, args=None,
-                   sweep_full=True, prelude="", inner_attrs="", scope_items="", phases=None):
+                   sweep_full=True, prelude="", inner_attrs="", scope_items="", phases=None, m_external=None):
     """Rust text of one subject module `pub mod <sid>` exposing `pub static SUBJECT`."""
     b = dict(x1_depth=3, x2_extra=2, x2_cap=8, range_x1_depth=2, range_x2_extra=2,
              range_pair_step=0, consumers=True)
@@ -88,15 +88,11 @@ def subject_source(sid, decl, cfg, derive_use="use ::enum_tools::EnumTools;", bo
     L = []
     L.append("pub mod %s {" % sid)
     L.append("  #![allow(dead_code, unused_imports, unreachable_patterns, non_camel_case_types, clippy::all)]")
-    L.append("  pub mod m {")
-    if inner_attrs:
-        L.append("    " + inner_attrs)
-    L.append("    " + derive_use)
-    if scope_items:
-        L.append(scope_items)
-    L.append(decl.render(cfg.attr_lines(), indent="    "))
-    L.append("  }")
-    L.append("  use self::m::%s as E;" % E)
+    if m_external is None:
+        L.append(module_m_source(decl, cfg, derive_use, inner_attrs, scope_items))
+        L.append("  use self::m::%s as E;" % E)
+    else:
+        L.append("  use %s::m::%s as E;" % (m_external, E))
     L.append("  type R = %s;" % R)
     L.append("  use ::driver::{Obs, DynIter, W};")
     L.append("  static VARS: [E; %d] = [%s];" % (n, ", ".join("E::%s" % v.ident for v in decl.variants)))
@@ -162,6 +158,18 @@ def subject_source(sid, decl, cfg, derive_use="use ::enum_tools::EnumTools;", bo
     L.append("    ..::driver::SUBJECT_DEFAULT")
     L.append("  };")
     L.append("}")
+    return "\n".join(L)
+
+
+def module_m_source(decl, cfg, derive_use="use ::enum_tools::EnumTools;", inner_attrs="", scope_items=""):
+    L = ["  pub mod m {"]
+    if inner_attrs:
+        L.append("    " + inner_attrs)
+    L.append("    " + derive_use)
+    if scope_items:
+        L.append(scope_items)
+    L.append(decl.render(cfg.attr_lines(), indent="    "))
+    L.append("  }")
     return "\n".join(L)
 
 
@@ -235,7 +243,7 @@ def _batches(subjects, nb):
     return [sorted(g) for g in groups if g]
 
 
-def build_workspace(tag, subjects, nb=None, extra_deps="", derive_dep=None):
+def build_workspace(tag, subjects, nb=None, extra_deps="", derive_dep=None, extra_crates=None):
     """Write the workspace for `subjects` under work/<tag>/ and build it. Returns
     (wsdir, [(batch_name, [subject indices], binary path)], build_failures) where build_failures is a
     list of (batch name, stderr) for batches that did not compile."""
@@ -258,6 +266,12 @@ def build_workspace(tag, subjects, nb=None, extra_deps="", derive_dep=None):
             src.append(subjects[i].source())
         src.append("fn main() { ::driver::run_all(&[%s]); }" % ", ".join("&%s::SUBJECT" % subjects[i].sid for i in g))
         write_if_changed(os.path.join(bdir, "main.rs"), "\n".join(src) + "\n")
+    for cname, (ctoml, csrc) in (extra_crates or {}).items():
+        cdir = os.path.join(ws, cname)
+        os.makedirs(cdir, exist_ok=True)
+        write_if_changed(os.path.join(cdir, "Cargo.toml"), ctoml)
+        write_if_changed(os.path.join(cdir, "lib.rs"), csrc)
+        names.append(cname)
     # remove stale batch dirs
     for d in os.listdir(ws):
         p = os.path.join(ws, d)
@@ -284,7 +298,7 @@ def build_workspace(tag, subjects, nb=None, extra_deps="", derive_dep=None):
         if not failed:
             raise MachineryError("cargo build failed without naming a package:\n" + stderr[-6000:])
         for bname in sorted(failed):
-            if bname == "driver" or bname.startswith("enum-tools") or bname not in names:
+            if bname == "driver" or bname.startswith("enum-tools") or bname not in names or bname in (extra_crates or {}):
                 raise MachineryError("engine crate `%s` does not build:\n%s" % (bname, stderr[-6000:]))
             failures.append((bname, stderr))
     return ws, out, failures
